@@ -69,10 +69,14 @@ def leaked (written read : List Cfg) : List Bytes :=
 
 /-! ### Well-formedness -/
 
+/-- no byte is one of the ASCII spaces TAB LF VT FF CR SP (each of them is a space rune wherever
+it stands, also inside a malformed UTF-8 sequence) -/
+def noAsciiSpace (t : Bytes) : Bool := t.all (fun c => !asciiSpace c)
+
 /-- A key the reader's key/value rule accepts: non-empty, first rune lower case, no space or
 upper-case rune, no colon — i.e. scanning `key:` finds exactly `key`. Needed for file keys: the
 writer prints `key: value` and `key:` and the reader must take them for what they are. -/
-def keyOK (uc : UC) (k : Bytes) : Bool := kvScan uc true 0 (k ++ [58]) == .found k []
+def keyOK (uc : UC) (k : Bytes) : Bool := noAsciiSpace k && kvScan uc true 0 (k ++ [58]) == .found k []
 
 /-- A file-configuration value: non-empty (an empty value is the deletion line), no LF (it would
 end the line), no leading blank or tab (the reader strips them) — and not ending in CR (the line
@@ -86,7 +90,7 @@ def valueOK (v : Bytes) : Bool := valueOKnoCR v && !endsCR v
 
 /-- A token that `splitField` returns whole when a blank follows: free of space runes (as
 `unicode.IsSpace` sees them after `utf8.DecodeRune`). The empty token qualifies. -/
-def tokenOK (uc : UC) (t : Bytes) : Bool := takeField uc 0 (t ++ [32]) == (t, [])
+def tokenOK (uc : UC) (t : Bytes) : Bool := noAsciiSpace t && takeField uc 0 (t ++ [32]) == (t, [])
 
 /-- The line `key:` the writer prints when an INTERNAL key disappears (it prints it for every
 key it knows) must be harmless: either `key` is a regular key (then it deletes a key the
